@@ -23,6 +23,7 @@ import (
 	"fmt"
 	"math/rand"
 	"os"
+	"os/exec"
 	"runtime/debug"
 	"slices"
 	"sort"
@@ -126,9 +127,9 @@ func alterRename(t string, from, to []string) request {
 	return request{Op: "AlterRename", T: t, From: from, To: to}
 }
 func renameTable(from, to string) request { return request{Op: "RenameTable", T: from, T2: to} }
-func view(name, def string) request        { return request{Op: "View", T: name, Def: def} }
-func drop(name string) request             { return request{Op: "Drop", T: name} }
-func ins(t string, row ...int) request     { return request{Op: "Ins", T: t, Row: row} }
+func view(name, def string) request       { return request{Op: "View", T: name, Def: def} }
+func drop(name string) request            { return request{Op: "Drop", T: name} }
+func ins(t string, row ...int) request    { return request{Op: "Ins", T: t, Row: row} }
 
 func (x idxSpec) render(short bool) string {
 	s := map[string]string{"k": "key", "i": "index", "u": "index unique"}[x.Mode]
@@ -346,14 +347,40 @@ func reparse(db *db19.Database) (tables []tblProj, ok bool, msg string) {
 
 // ---------------------------------------------------------------- running
 
+// trace is an unbuffered, appending ndjson writer: every event is on disk before the
+// next request runs, so a crash of the code under test (log.Fatal in the merger
+// goroutine cannot be recovered) loses nothing
+type trace struct {
+	f *os.File
+	n int
+}
+
+func (t *trace) emit(e *vh.Ev) {
+	b, err := json.Marshal(e)
+	if err != nil {
+		vh.Fatal("marshal: %v", err)
+	}
+	if _, err := t.f.Write(append(b, '\n')); err != nil {
+		vh.Fatal("write trace: %v", err)
+	}
+	t.n++
+}
+
+type counts struct {
+	Scen   int            `json:"scen"` // index of the scenario being run
+	Done   int            `json:"done"`
+	Events int            `json:"events"`
+	Req    int            `json:"req"`
+	Ok     int            `json:"ok"`
+	Err    int            `json:"err"`
+	Ins    int            `json:"ins"`
+	PerOp  map[string]int `json:"perop"`
+}
+
 type runner struct {
-	tr      *vh.Trace
+	tr      *trace // nil: planning run, nothing is recorded
 	db      *db19.Database
-	nreq    int
-	nok     int
-	nerr    int
-	nins    int
-	perOp   map[string]int
+	c       counts
 	verbose bool
 	inScen  bool
 }
@@ -362,8 +389,8 @@ func (rn *runner) start() {
 	if rn.inScen {
 		rn.finish()
 	}
-	if rn.tr.N > 0 {
-		rn.tr.Reset()
+	if rn.tr != nil {
+		rn.tr.emit(vh.E("Reset"))
 	}
 	st := stor.HeapStor(8192)
 	rn.db = db19.CreateDb(st)
@@ -399,27 +426,30 @@ func (rn *runner) do(r request) bool {
 	if r.Op == "Ins" {
 		ok, msg = rn.insert(r)
 		text = "insert"
-		rn.nins++
+		rn.c.Ins++
 	} else {
 		text = r.render()
 		// all earlier commits merged and persisted: an index build must not race
 		// with the background merge (that race is the subject of C06/C16, not C21)
 		rn.db.Persist()
 		ok, msg = try(func() { query.DoAdmin(rn.db, text, nil) })
-		rn.nreq++
-		rn.perOp[r.Op]++
+		rn.c.Req++
+		rn.c.PerOp[r.Op]++
 		if ok {
-			rn.nok++
+			rn.c.Ok++
 		} else {
-			rn.nerr++
+			rn.c.Err++
 		}
+	}
+	if rn.tr == nil {
+		return ok
 	}
 	if r.Op == "Ins" {
 		// the environment stored a row: no admin request, the next request reports the state
 		if rn.verbose {
 			fmt.Printf("insert %s %v %v %s\n", r.T, r.Row, ok, msg)
 		}
-		rn.tr.Emit(vh.E("Ins", "req", r, "ok", ok, "msg", short(msg)))
+		rn.tr.emit(vh.E("Ins", "req", r, "ok", ok, "msg", short(msg)))
 		return ok
 	}
 	tables, views := project(rn.db, true)
@@ -433,7 +463,7 @@ func (rn *runner) do(r request) bool {
 	if rn.verbose {
 		fmt.Printf("%-70s %v %s %s\n", text, ok, msg, remsg)
 	}
-	rn.tr.Emit(vh.E("Req", "req", r, "txt", text, "ok", ok, "msg", short(msg), "sch", tables, "views", views,
+	rn.tr.emit(vh.E("Req", "req", r, "txt", text, "ok", ok, "msg", short(msg), "sch", tables, "views", views,
 		"reok", reok, "resame", resame, "re", re))
 	return ok
 }
@@ -719,6 +749,9 @@ func probes(ts []tinfo) []request {
 		add(renameTable(other, "tz"))
 		add(drop(other))
 	}
+	if len(names) == 0 {
+		names = []string{"ta"}
+	}
 	add(create("tables", cl("a"), key("a")))
 	add(drop("views"))
 	add(renameTable(names[0], "columns"))
@@ -966,6 +999,91 @@ func (g *gen) walk(nsteps int) {
 
 // ---------------------------------------------------------------- main
 
+// scen describes one scenario; everything random in it derives from (seed, index)
+type scen struct {
+	kind  string // "setup", "probe", "pair", "walk"
+	setup int
+	probe int
+}
+
+// plan lists the scenarios of a run (deterministic for seed and arguments)
+func plan(nrandom, pct int, pairs bool) ([]scen, [][]request) {
+	rnd := rand.New(rand.NewSource(vh.Seed()*7919 + 17))
+	scens := []scen{}
+	allProbes := [][]request{}
+	for si, s := range setups() {
+		prn := &runner{c: counts{PerOp: map[string]int{}}}
+		prn.runSetup(s)
+		ps := probes(prn.tables())
+		prn.finish()
+		allProbes = append(allProbes, ps)
+		scens = append(scens, scen{kind: "setup", setup: si})
+		for pi, p := range ps {
+			// all alter drops always (F9 lives there), a seeded sample of the others
+			if p.Op != "AlterDrop" && rnd.Intn(100) >= pct {
+				continue
+			}
+			scens = append(scens, scen{kind: "probe", setup: si, probe: pi})
+		}
+		if pairs {
+			for i := 0; i < 3*len(ps); i++ {
+				scens = append(scens, scen{kind: "pair", setup: si, probe: rnd.Intn(len(ps))})
+			}
+		}
+	}
+	for i := 0; i < nrandom; i++ {
+		scens = append(scens, scen{kind: "walk"})
+	}
+	return scens, allProbes
+}
+
+func (rn *runner) runScen(idx int, sc scen, allProbes [][]request) {
+	rnd := rand.New(rand.NewSource(vh.Seed()*1000003 + int64(idx)))
+	switch sc.kind {
+	case "setup":
+		rn.runSetup(setups()[sc.setup])
+	case "probe", "pair":
+		rn.runSetup(setups()[sc.setup])
+		p := allProbes[sc.setup][sc.probe]
+		p.short = rnd.Intn(2) == 0
+		if rn.do(p) && (sc.kind == "pair" || rnd.Intn(100) < 50) {
+			// a second request from the neighbourhood of the new schema
+			ps2 := probes(rn.tables())
+			rn.do(ps2[rnd.Intn(len(ps2))])
+		}
+	case "walk":
+		g := &gen{rnd: rnd, rn: rn}
+		g.walk(6 + rnd.Intn(10))
+	}
+}
+
+// child runs the scenarios from index `from` on, appending to the trace; the progress
+// file always names the scenario being run and the counts so far
+func child(out string, from, nrandom, pct int, pairs bool) {
+	db19.MakeSuTran = func(ut *db19.UpdateTran) *core.SuTran { return core.NewSuTran(nil, true) }
+	scens, allProbes := plan(nrandom, pct, pairs)
+	f, err := os.OpenFile(out, os.O_WRONLY|os.O_APPEND|os.O_CREATE, 0o644)
+	if err != nil {
+		vh.Fatal("open trace: %v", err)
+	}
+	rn := &runner{tr: &trace{f: f}, c: counts{PerOp: map[string]int{}}, verbose: os.Getenv("VERIF_VERBOSE") != ""}
+	progress := func(i int) {
+		rn.c.Scen, rn.c.Events = i, rn.tr.n
+		b, _ := json.Marshal(rn.c)
+		if err := os.WriteFile(out+".progress", b, 0o644); err != nil {
+			vh.Fatal("progress: %v", err)
+		}
+	}
+	for i := from; i < len(scens); i++ {
+		progress(i)
+		rn.runScen(i, scens[i], allProbes)
+		rn.c.Done++
+	}
+	rn.finish()
+	progress(len(scens))
+	f.Close()
+}
+
 func main() {
 	if len(os.Args) < 4 {
 		vh.Fatal("usage: schema <trace> <nrandom> <probe-percent> [pairs]")
@@ -974,52 +1092,86 @@ func main() {
 	nrandom, _ := strconv.Atoi(os.Args[2])
 	pct, _ := strconv.Atoi(os.Args[3])
 	pairs := len(os.Args) > 4 && os.Args[4] == "pairs"
-	rnd := rand.New(rand.NewSource(vh.Seed()))
-	db19.MakeSuTran = func(ut *db19.UpdateTran) *core.SuTran { return core.NewSuTran(nil, true) }
-	tr := vh.Create(out)
-	rn := &runner{tr: tr, perOp: map[string]int{}, verbose: os.Getenv("VERIF_VERBOSE") != ""}
-	nscen := 0
-	// systematic: every setup followed by each request of its neighbourhood
-	for _, s := range setups() {
-		rn.runSetup(s)
-		ps := probes(rn.tables())
-		nscen++
-		for _, p := range ps {
-			// all alter drops always (F9 lives there), a seeded sample of the others
-			if p.Op != "AlterDrop" && rnd.Intn(100) >= pct {
-				continue
-			}
-			rn.runSetup(s)
-			p.short = rnd.Intn(2) == 0
-			if rn.do(p) && rnd.Intn(100) < 50 {
-				// a second request from the neighbourhood of the new schema
-				ps2 := probes(rn.tables())
-				rn.do(ps2[rnd.Intn(len(ps2))])
-			}
-			nscen++
+	if from := os.Getenv("SCHEMA_CHILD_FROM"); from != "" {
+		n, _ := strconv.Atoi(from)
+		child(out, n, nrandom, pct, pairs)
+		return
+	}
+	// parent: the scenarios run in a child process; if the code under test kills the
+	// process (FATAL in a background goroutine) the next child goes on behind that scenario
+	os.Remove(out)
+	os.Remove(out + ".progress")
+	total := counts{PerOp: map[string]int{}}
+	crashes, from := 0, 0
+	crashMsgs := []string{}
+	for {
+		cmd := exec.Command(os.Args[0], os.Args[1:]...)
+		cmd.Env = append(os.Environ(), "SCHEMA_CHILD_FROM="+strconv.Itoa(from))
+		var errb strings.Builder
+		cmd.Stderr = &errb
+		if os.Getenv("VERIF_VERBOSE") != "" {
+			cmd.Stdout = os.Stdout
 		}
-		if pairs {
-			for i := 0; i < 3*len(ps); i++ {
-				rn.runSetup(s)
-				if rn.do(ps[rnd.Intn(len(ps))]) {
-					ps2 := probes(rn.tables())
-					rn.do(ps2[rnd.Intn(len(ps2))])
-				}
-				nscen++
-			}
+		err := cmd.Run()
+		if ee, ok := err.(*exec.ExitError); ok && ee.ExitCode() == 97 {
+			os.Stderr.WriteString(errb.String())
+			os.Exit(97)
+		}
+		var c counts
+		b, rerr := os.ReadFile(out + ".progress")
+		if rerr != nil || json.Unmarshal(b, &c) != nil {
+			vh.Fatal("no progress from child: %v %v\n%s", err, rerr, tail(errb.String(), 2000))
+		}
+		total.Done += c.Done
+		total.Events += c.Events
+		total.Req += c.Req
+		total.Ok += c.Ok
+		total.Err += c.Err
+		total.Ins += c.Ins
+		for k, v := range c.PerOp {
+			total.PerOp[k] += v
+		}
+		if err == nil {
+			total.Scen = c.Scen
+			break
+		}
+		// the child died in scenario c.Scen (its events so far are in the trace)
+		crashes++
+		crashMsgs = append(crashMsgs, fmt.Sprintf("scenario %d: %s", c.Scen, lastLine(errb.String())))
+		from = c.Scen + 1
+		if crashes > 200 {
+			vh.Fatal("too many crashes of the code under test: %v", crashMsgs[:5])
 		}
 	}
-	// random walks
-	g := &gen{rnd: rnd, rn: rn}
-	for i := 0; i < nrandom; i++ {
-		g.walk(6 + rnd.Intn(10))
-		nscen++
+	os.Remove(out + ".progress")
+	nev := 0
+	if b, err := os.ReadFile(out); err == nil {
+		nev = strings.Count(string(b), "\n")
 	}
-	rn.finish()
-	tr.Close()
-	vh.Summary("scenarios", nscen, "requests", rn.nreq, "ok", rn.nok, "error", rn.nerr, "inserts", rn.nins,
-		"events", tr.N, "create", rn.perOp["Create"], "ensure", rn.perOp["Ensure"],
-		"altercreate", rn.perOp["AlterCreate"], "alterdrop", rn.perOp["AlterDrop"],
-		"alterrename", rn.perOp["AlterRename"], "renametable", rn.perOp["RenameTable"],
-		"view", rn.perOp["View"], "drop", rn.perOp["Drop"])
+	if len(crashMsgs) > 5 {
+		crashMsgs = crashMsgs[:5]
+	}
+	vh.Summary("scenarios", total.Scen, "completed", total.Done, "crashes", crashes, "crash_msgs", crashMsgs,
+		"requests", total.Req, "ok", total.Ok, "error", total.Err, "inserts", total.Ins,
+		"events", nev, "create", total.PerOp["Create"], "ensure", total.PerOp["Ensure"],
+		"altercreate", total.PerOp["AlterCreate"], "alterdrop", total.PerOp["AlterDrop"],
+		"alterrename", total.PerOp["AlterRename"], "renametable", total.PerOp["RenameTable"],
+		"view", total.PerOp["View"], "drop", total.PerOp["Drop"])
+}
+
+func tail(s string, n int) string {
+	if len(s) > n {
+		return s[len(s)-n:]
+	}
+	return s
+}
+
+func lastLine(s string) string {
+	lines := strings.Split(strings.TrimSpace(s), "\n")
+	for i := len(lines) - 1; i >= 0; i-- {
+		if strings.Contains(lines[i], "FATAL") || strings.Contains(lines[i], "panic") {
+			return short(lines[i])
+		}
+	}
+	return short(lines[len(lines)-1])
 }
